@@ -1,6 +1,10 @@
 (* Proofs about the model of parse_directive_text (DirModel.v). *)
 From Coq Require Import List NArith ZArith Bool Lia Permutation.
-From MV Require Import Base.PyStr Base.Res Dir.PyLines Dir.PyLinesProofs Dir.DirModel.
+From MV Require Import Base.PyStr.
+From MV Require Import Base.Res.
+From MV Require Import Dir.PyLines.
+From MV Require Import Dir.PyLinesProofs.
+From MV Require Import Dir.DirModel.
 Import ListNotations.
 Open Scope N_scope.
 
@@ -69,6 +73,13 @@ Lemma skipn_app_cons {A} (a : list A) x b :
   skipn (length a + 1) (a ++ x :: b) = b /\ skipn (S (length a)) (a ++ x :: b) = b.
 Proof. induction a as [|y a IH]; cbn [length plus app skipn]; [auto | exact IH]. Qed.
 
+Lemma startswith_app p : forall a r, startswith a p = true -> startswith (a ++ r) p = true.
+Proof.
+  induction p as [|c p IH]; intros a r H; [apply startswith_nil_r|].
+  destruct a as [|x a]; [discriminate|]. cbn [startswith app] in *.
+  apply andb_true_iff in H as [H1 H2]. rewrite H1, (IH a r H2). reflexivity.
+Qed.
+
 (* ---------- the two scanning loops ---------- *)
 
 Lemma search_dash_spec ls : forall pre m,
@@ -135,7 +146,7 @@ Proof.
     assert (content = []) as ->.
     { destruct content; [reflexivity|]. exfalso. eapply splitlines_nonempty; [|exact El]. discriminate. }
     cbn in H. inv H. exists O. repeat split; auto.
-    apply (E_colon [] [] []); auto; constructor.
+    apply (E_colon [] [] []); [reflexivity | reflexivity | constructor | reflexivity].
   - cbn [hd_line] in H. fold (is_dash_line d0) in H.
     destruct (is_dash_line d0) eqn:Ed.
     + (* dash style *)
@@ -146,7 +157,8 @@ Proof.
         inv Hns. rewrite count_nl_text_before by (eapply Forall_app_l; eauto).
         exists (2 + length pre)%nat. repeat split.
         -- cbn [length]. rewrite app_length. cbn [length]. lia.
-        -- change (2 + length pre)%nat with (S (S (length pre))). cbn [skipn].
+        -- change (skipn (2 + length pre) (d0 :: pre ++ d1 :: after))
+             with (skipn (S (length pre)) (pre ++ d1 :: after)).
            rewrite (proj1 (skipn_app_cons pre d1 after)), (proj2 (skipn_app_cons pre d1 after)). reflexivity.
         -- eapply E_dash_closed; eauto.
       * subst rest. inv H. exists (length (d0 :: pre)). repeat split.
@@ -162,7 +174,7 @@ Proof.
         -- rewrite A. symmetry. apply skipn_app_length.
         -- eapply E_colon; eauto.
       * inv H. exists O. repeat split; [lia|].
-        apply (E_colon (d0 :: rest) [] (d0 :: rest)); auto; [constructor|].
+        apply (E_colon (d0 :: rest) [] (d0 :: rest)); [reflexivity | exact Ed | constructor |].
         cbn [hd_line].
         (* if the first line were a colon line, content.lstrip() would start with ":" *)
         destruct (is_colon_line d0) eqn:Ecl; [|reflexivity]. exfalso.
@@ -170,8 +182,7 @@ Proof.
         unfold is_colon_line in Ecl.
         assert (Hne : lstrip d0 <> []) by (destruct (lstrip d0); [discriminate | discriminate]).
         rewrite Hc, (lstrip_app_nonempty d0 r Hne) in Ec.
-        destruct (lstrip d0) as [|x t]; [discriminate|].
-        cbn in Ecl, Ec. rewrite Ecl in Ec. discriminate.
+        rewrite (startswith_app _ _ r Ecl) in Ec. discriminate.
 Qed.
 
 Section WithOracles.
@@ -226,13 +237,12 @@ Proof.
   - apply bind_ok in H as [a [_ H]]. inv H. auto.
 Qed.
 
-Lemma strip_blank_spec n lines off :
-  (n <= length lines)%nat ->
+Lemma strip_blank_spec n lines :
   strip_blank_line (skipn n lines) (Z.of_nat n) =
   (skipn (n + if blank_at n lines then 1 else 0) lines,
-   Z.of_nat (n + if blank_at n lines then 1 else 0)) /\ off = off.
+   Z.of_nat (n + if blank_at n lines then 1 else 0)).
 Proof.
-  intro Hn. split; [|reflexivity]. unfold strip_blank_line, blank_at.
+  unfold strip_blank_line, blank_at.
   destruct (skipn n lines) as [|l rest] eqn:E.
   - rewrite (skipn_nil_nth _ _ E). rewrite Nat.add_0_r, E. reflexivity.
   - destruct (skipn_cons_nth _ _ _ _ E) as [A B]. rewrite A.
@@ -257,8 +267,7 @@ Proof.
   destruct (options_phase_spec _ _ _ _ _ _ _ _ _ _ H1) as [n [Hn [Hcl [Hoff Hext]]]].
   destruct (first_line_phase_not_body _ _ _ _ _ _ _ _ _ _ Hm H2) as [-> ->].
   subst cl off.
-  destruct (strip_blank_spec n (splitlines content) 0%Z Hn) as [Hs _].
-  rewrite Hs in H. inv H. cbn [r_body_offset r_body].
+  rewrite (strip_blank_spec n (splitlines content)) in H. inv H. cbn [r_body_offset r_body].
   exists n. split; [exact Hext|]. cbn zeta. repeat split.
   unfold blank_at. destruct (nth_error (splitlines content) n) eqn:E.
   - assert (n < length (splitlines content))%nat by (apply nth_error_Some; congruence).
@@ -432,3 +441,628 @@ Proof.
 Qed.
 
 End WithOracles2.
+
+(* ================= option validation ================= *)
+
+Definition times_named_zero (ws : list pwarn) : Prop := forall k, times_named k ws = O.
+
+
+(* the value handed to the converter: empty -> None, flag -> always None *)
+Definition conv_arg (sg : dsig) (name value : str) : option str :=
+  if opt_is_flag sg name then None else if nonempty value then Some value else None.
+
+Inductive verdict := Kept (c : str) | Invalid | Unknown | Escapes (e : exn).
+
+(* what becomes of one (name, value) pair of the merged options *)
+Definition judge (sg : dsig) (name value : str) : verdict :=
+  if negb (opt_known sg name) then Unknown
+  else match opt_conv sg name (conv_arg sg name value) with
+       | Ok c => Kept c
+       | Raise ValueError | Raise TypeError => Invalid
+       | Raise e => Escapes e
+       end.
+
+Definition kept_of (sg : dsig) (opts : list (str * str)) : list (str * str) :=
+  flat_map (fun kv => match judge sg (fst kv) (snd kv) with Kept c => [(fst kv, c)] | _ => [] end) opts.
+Definition invalid_of (sg : dsig) (line : option nat) (opts : list (str * str)) : list pwarn :=
+  flat_map (fun kv => match judge sg (fst kv) (snd kv) with Invalid => [W_invalid (fst kv) line] | _ => [] end) opts.
+Definition unknown_of (sg : dsig) (opts : list (str * str)) : list str :=
+  flat_map (fun kv => match judge sg (fst kv) (snd kv) with Unknown => [fst kv] | _ => [] end) opts.
+
+Lemma validate_loop_cons sg line k v opts :
+  validate_loop sg line ((k, v) :: opts) =
+  match judge sg k v with
+  | Escapes e => Raise e
+  | j => do r <- validate_loop sg line opts;
+         let '(no, ve, un) := r in
+         Ok (match j with Kept c => (k, c) :: no | _ => no end,
+             match j with Invalid => W_invalid k line :: ve | _ => ve end,
+             match j with Unknown => k :: un | _ => un end)
+  end.
+Proof.
+  cbn [validate_loop]. unfold judge, conv_arg.
+  destruct (opt_known sg k); cbn [negb].
+  - destruct (opt_conv sg k (if opt_is_flag sg k then None else if nonempty v then Some v else None)) as [c|e].
+    + destruct (validate_loop sg line opts) as [[[no ve] un]|]; reflexivity.
+    + destruct e; try reflexivity; destruct (validate_loop sg line opts) as [[[no ve] un]|]; reflexivity.
+  - destruct (validate_loop sg line opts) as [[[no ve] un]|]; reflexivity.
+Qed.
+
+Lemma validate_loop_spec sg line opts : forall no ve un,
+  validate_loop sg line opts = Ok (no, ve, un) ->
+  no = kept_of sg opts /\ ve = invalid_of sg line opts /\ un = unknown_of sg opts /\
+  (forall k v, In (k, v) opts -> forall e, judge sg k v <> Escapes e).
+Proof.
+  induction opts as [|[k v] opts IH]; intros no ve un H.
+  - cbn [validate_loop] in H. inv H. repeat split. intros k v [].
+  - rewrite validate_loop_cons in H.
+    unfold kept_of, invalid_of, unknown_of. cbn [flat_map fst snd].
+    fold (kept_of sg opts). fold (invalid_of sg line opts). fold (unknown_of sg opts).
+    destruct (judge sg k v) eqn:Ej; try discriminate;
+      apply bind_ok in H as [[[no' ve'] un'] [H1 H]]; inv H;
+      destruct (IH _ _ _ H1) as [A [B [C D]]]; subst; repeat split;
+      intros k' v' [E|E] e; try (apply D; exact E); inv E; rewrite Ej; discriminate.
+Qed.
+
+(* ---------- counting names ---------- *)
+
+Lemma count_str_app k a b : count_str k (a ++ b) = (count_str k a + count_str k b)%nat.
+Proof. induction a as [|x a IH]; [reflexivity|]. cbn [app count_str]. rewrite IH. lia. Qed.
+
+Lemma count_str_perm k a b : Permutation a b -> count_str k a = count_str k b.
+Proof. induction 1; cbn [count_str]; lia. Qed.
+
+Lemma count_str_notin k l : ~ In k l -> count_str k l = O.
+Proof.
+  induction l as [|x l IH]; intro H; [reflexivity|]. cbn [count_str].
+  destruct (str_eqb k x) eqn:E.
+  - apply str_eqb_eq in E. subst. exfalso. apply H. left. reflexivity.
+  - rewrite IH; [reflexivity|]. intro. apply H. right. assumption.
+Qed.
+
+Lemma times_named_app k a b : times_named k (a ++ b) = (times_named k a + times_named k b)%nat.
+Proof. unfold times_named. rewrite flat_map_app. apply count_str_app. Qed.
+
+Lemma names_invalid_unknown_notin sg line opts k :
+  ~ In k (map fst opts) ->
+  count_str k (flat_map names_of (invalid_of sg line opts)) = O /\ count_str k (unknown_of sg opts) = O.
+Proof.
+  induction opts as [|[k' v'] opts IH]; intro H; [split; reflexivity|].
+  cbn [map fst] in H.
+  assert (Hk : str_eqb k k' = false).
+  { apply str_eqb_neq. intro. apply H. left. congruence. }
+  destruct IH as [A B]; [intro; apply H; right; assumption|].
+  unfold invalid_of, unknown_of in *. cbn [flat_map fst snd].
+  destruct (judge sg k' v'); cbn [app flat_map names_of count_str]; rewrite ?flat_map_app, ?count_str_app, ?Hk;
+    cbn [flat_map names_of app count_str]; rewrite ?Hk; split; try exact A; try exact B; cbn; try lia.
+  all: try (rewrite A; reflexivity); try (rewrite B; reflexivity).
+Qed.
+
+(* with distinct keys: a key is named once iff it is dropped *)
+Lemma named_once sg line opts : NoDup (map fst opts) -> forall k v, In (k, v) opts ->
+  (count_str k (flat_map names_of (invalid_of sg line opts)) + count_str k (unknown_of sg opts))%nat =
+  match judge sg k v with Kept _ => O | Escapes _ => O | _ => 1%nat end.
+Proof.
+  induction opts as [|[k' v'] opts IH]; intros Hnd k v Hin; [destruct Hin|].
+  cbn [map fst] in Hnd. inv Hnd.
+  unfold invalid_of, unknown_of. cbn [flat_map fst snd]. fold (invalid_of sg line opts). fold (unknown_of sg opts).
+  destruct Hin as [E|Hin].
+  - inv E. destruct (names_invalid_unknown_notin sg line opts k H1) as [A B].
+    destruct (judge sg k v); cbn [app flat_map names_of count_str]; rewrite ?str_eqb_refl, ?A, ?B; reflexivity.
+  - assert (Hk : str_eqb k k' = false).
+    { apply str_eqb_neq. intro. subst. apply H1. apply (in_map fst) in Hin. exact Hin. }
+    specialize (IH H2 k v Hin).
+    destruct (judge sg k' v'); cbn [app flat_map names_of count_str]; rewrite ?Hk; cbn [plus]; exact IH.
+Qed.
+
+(* ---------- dicts ---------- *)
+
+Lemma dict_set_fresh {V} (d : list (str * V)) k v : ~ In k (map fst d) -> dict_set d k v = d ++ [(k, v)].
+Proof.
+  induction d as [|[k' v'] d IH]; intro H; [reflexivity|]. cbn [dict_set map fst] in *.
+  destruct (str_eqb k k') eqn:E.
+  - apply str_eqb_eq in E. subst. exfalso. apply H. left. reflexivity.
+  - rewrite IH; [reflexivity|]. intro. apply H. right. assumption.
+Qed.
+
+Lemma dict_set_keys {V} (d : list (str * V)) k v :
+  map fst (dict_set d k v) = if mem_str k (map fst d) then map fst d else map fst d ++ [k].
+Proof.
+  induction d as [|[k' v'] d IH]; [reflexivity|]. cbn [dict_set map fst mem_str].
+  destruct (str_eqb k k') eqn:E; cbn [orb map fst]; [reflexivity|].
+  rewrite IH. destruct (mem_str k (map fst d)); reflexivity.
+Qed.
+
+Lemma NoDup_snoc {A} (l : list A) x : NoDup l -> ~ In x l -> NoDup (l ++ [x]).
+Proof.
+  induction 1 as [|y l Hy Hl IH]; intro Hx; cbn [app].
+  - constructor; [intros [] | constructor].
+  - constructor.
+    + intro Hi. apply in_app_or in Hi as [Hi|[<-|[]]]; [contradiction|]. apply Hx. left. reflexivity.
+    + apply IH. intro. apply Hx. right. assumption.
+Qed.
+
+Lemma dict_set_nodup {V} (d : list (str * V)) k v : NoDup (map fst d) -> NoDup (map fst (dict_set d k v)).
+Proof.
+  intro H. rewrite dict_set_keys. destruct (mem_str k (map fst d)) eqn:E; [exact H|].
+  assert (~ In k (map fst d)) by (intro X; apply mem_str_In in X; congruence).
+  apply NoDup_snoc; assumption.
+Qed.
+
+Lemma dict_update_nodup {V} (e : list (str * V)) : forall d, NoDup (map fst d) -> NoDup (map fst (dict_update d e)).
+Proof.
+  unfold dict_update. induction e as [|[k v] e IH]; intros d H; [exact H|].
+  cbn [fold_left fst snd]. apply IH. apply dict_set_nodup. exact H.
+Qed.
+
+Lemma dict_of_nodup {V} (e : list (str * V)) : NoDup (map fst (dict_of e)).
+Proof. apply dict_update_nodup. constructor. Qed.
+
+Lemma dict_get_set {V} (d : list (str * V)) k v k' :
+  dict_get (dict_set d k v) k' = if str_eqb k' k then Some v else dict_get d k'.
+Proof.
+  induction d as [|[k1 v1] d IH]; cbn [dict_set dict_get]; [reflexivity|].
+  destruct (str_eqb k k1) eqn:E.
+  - apply str_eqb_eq in E. subst. cbn [dict_get]. destruct (str_eqb k' k1); reflexivity.
+  - cbn [dict_get]. rewrite IH. destruct (str_eqb k' k1) eqn:E1; [|reflexivity].
+    apply str_eqb_eq in E1. subst. destruct (str_eqb k1 k) eqn:E2; [|reflexivity].
+    apply str_eqb_eq in E2. subst. rewrite str_eqb_refl in E. discriminate.
+Qed.
+
+(* {**d, **e}: e wins *)
+Lemma dict_get_update {V} (e : list (str * V)) : forall d k,
+  dict_get (dict_update d e) k =
+  match dict_get (dict_update [] e) k with Some v => Some v | None => dict_get d k end.
+Proof.
+  unfold dict_update. induction e as [|[k1 v1] e IH]; intros d k; [reflexivity|].
+  cbn [fold_left fst snd]. rewrite (IH (dict_set d k1 v1)), (IH (dict_set [] k1 v1)).
+  destruct (dict_get (fold_left _ e []) k); [reflexivity|].
+  rewrite dict_get_set. cbn [dict_set dict_get]. destruct (str_eqb k k1); reflexivity.
+Qed.
+
+Lemma dict_update_nodup_id {V} (e : list (str * V)) : forall d,
+  NoDup (map fst (d ++ e)) -> dict_update d e = d ++ e.
+Proof.
+  unfold dict_update. induction e as [|[k v] e IH]; intros d H; [rewrite app_nil_r; reflexivity|].
+  cbn [fold_left fst snd].
+  assert (Hk : ~ In k (map fst d)).
+  { rewrite map_app in H. cbn [map fst] in H. apply NoDup_remove_2 in H. intro X. apply H. apply in_or_app. left. exact X. }
+  rewrite (dict_set_fresh d k v Hk). rewrite IH; rewrite <- app_assoc; [reflexivity | exact H].
+Qed.
+
+Lemma dict_of_nodup_id {V} (e : list (str * V)) : NoDup (map fst e) -> dict_of e = e.
+Proof. intro H. unfold dict_of. rewrite dict_update_nodup_id; [reflexivity | exact H]. Qed.
+
+(* the options that reach validation: the block's pairs over additional_options *)
+Definition merged_options (items : list (str * str)) (additional : option (list (str * str))) : list (str * str) :=
+  match additional with
+  | Some (a :: l) => dict_update (dict_of (a :: l)) (dict_of items)
+  | _ => dict_of items
+  end.
+
+Lemma merged_nodup items add : NoDup (map fst (merged_options items add)).
+Proof.
+  unfold merged_options. destruct add as [[|a l]|]; try apply dict_of_nodup.
+  apply dict_update_nodup. apply dict_of_nodup.
+Qed.
+
+(* options written in the block take priority over additional_options *)
+Theorem block_priority items add k :
+  dict_get (merged_options items add) k =
+  match dict_get (dict_of items) k with
+  | Some v => Some v
+  | None => match add with Some a => dict_get (dict_of a) k | None => None end
+  end.
+Proof.
+  unfold merged_options. destruct add as [[|a l]|].
+  - destruct (dict_get (dict_of items) k); reflexivity.
+  - rewrite dict_get_update. fold (dict_of (dict_of items)).
+    rewrite (dict_of_nodup_id (dict_of items) (dict_of_nodup items)). reflexivity.
+  - destruct (dict_get (dict_of items) k); reflexivity.
+Qed.
+
+Section Validation.
+Variable tokenize : str -> res (list (str * str) * bool).
+Variable yaml_load : str -> yres.
+Notation pdo := (parse_directive_options tokenize yaml_load).
+Notation pdt := (parse_directive_text tokenize yaml_load).
+
+(* the tokenizer's verdict on the block of this content (no block: no items) *)
+Definition block_items (content : str) (line : option nat) (items : list (str * str)) (hc : bool) : Prop :=
+  match fst (fst (split_options content line)) with
+  | None => items = [] /\ hc = false
+  | Some b => tokenize b = Ok (items, hc)
+  end.
+
+Theorem pdo_validation content sg line add o items hc :
+  is_test sg = false ->
+  block_items content line items hc ->
+  pdo content sg false line add = Ok o ->
+  let merged := merged_options items add in
+  o_options o = kept_of sg merged /\
+  (forall k v, In (k, v) merged ->
+     times_named k (o_warnings o) = match judge sg k v with Kept _ => O | _ => 1%nat end) /\
+  (forall k, ~ In k (map fst merged) -> times_named k (o_warnings o) = O).
+Proof.
+  cbn zeta. unfold block_items, parse_directive_options. intros Ht Hb.
+  destruct (split_options content line) as [[b cl] l'] eqn:Es. cbn [fst] in Hb.
+  assert (Hgen : forall options w0, times_named_zero w0 ->
+            options = dict_of items ->
+            (do r <- validate_loop sg l'
+                   match add with Some (a :: l) => dict_update (dict_of (a :: l)) options | _ => options end;
+             let '(new_options, ve, unknown) := r in
+             Ok {| o_content := cl; o_options := new_options;
+                   o_warnings := if nonempty unknown then (w0 ++ ve) ++ [W_unknown (sorted_strs unknown) l'] else w0 ++ ve;
+                   o_has_options := match b with Some _ => true | None => false end |}) = Ok o ->
+            o_options o = kept_of sg (merged_options items add) /\
+            (forall k v, In (k, v) (merged_options items add) ->
+               times_named k (o_warnings o) = match judge sg k v with Kept _ => O | _ => 1%nat end) /\
+            (forall k, ~ In k (map fst (merged_options items add)) -> times_named k (o_warnings o) = O)).
+  { intros options w0 Hw0 -> H.
+    apply bind_ok in H as [[[no ve] un] [H1 H]]. inv H. cbn [o_options o_warnings].
+    change (match add with Some (a :: l) => dict_update (dict_of (a :: l)) (dict_of items) | _ => dict_of items end)
+      with (merged_options items add) in H1.
+    destruct (validate_loop_spec _ _ _ _ _ _ H1) as [A [B [C D]]]. subst no ve un.
+    pose proof (merged_nodup items add) as Hnd.
+    assert (Hcount : forall k,
+      times_named k (if nonempty (unknown_of sg (merged_options items add))
+                     then (w0 ++ invalid_of sg l' (merged_options items add)) ++
+                          [W_unknown (sorted_strs (unknown_of sg (merged_options items add))) l']
+                     else w0 ++ invalid_of sg l' (merged_options items add)) =
+      (count_str k (flat_map names_of (invalid_of sg l' (merged_options items add))) +
+       count_str k (unknown_of sg (merged_options items add)))%nat).
+    { intro k. destruct (unknown_of sg (merged_options items add)) as [|u us] eqn:Eu; cbn [nonempty].
+      - rewrite times_named_app, (Hw0 k). unfold times_named. cbn [count_str]. lia.
+      - rewrite !times_named_app, (Hw0 k). unfold times_named at 2. cbn [flat_map names_of app].
+        rewrite app_nil_r. rewrite (count_str_perm k _ _ (sorted_strs_perm (u :: us))). unfold times_named. lia. }
+    split; [reflexivity|]. split.
+    - intros k v Hin. rewrite Hcount, (named_once sg l' _ Hnd k v Hin).
+      pose proof (D k v Hin) as Hne. destruct (judge sg k v); try reflexivity. exfalso. eapply Hne. reflexivity.
+    - intros k Hk. rewrite Hcount.
+      destruct (names_invalid_unknown_notin sg l' _ k Hk) as [X Y]. rewrite X, Y. reflexivity. }
+  destruct b as [blk|].
+  - rewrite Hb. rewrite Ht. destruct hc.
+    + apply (Hgen (dict_of items) [W_comments l']); [intro k; reflexivity | reflexivity].
+    + apply (Hgen (dict_of items) []); [intro k; reflexivity | reflexivity].
+  - destruct Hb as [-> ->]. rewrite Ht. apply (Hgen [] []); [intro k; reflexivity | reflexivity].
+Qed.
+
+End Validation.
+
+Section ValidationText.
+Variable tokenize : str -> res (list (str * str) * bool).
+Variable yaml_load : str -> yres.
+Notation pdo := (parse_directive_options tokenize yaml_load).
+Notation pdt := (parse_directive_text tokenize yaml_load).
+
+(* the options of the result are those of the option phase; the later warnings name no option *)
+Lemma pdt_options sg fl content line v add r :
+  pdt sg fl content line v add = Ok r -> has_option_spec sg = true ->
+  exists o, pdo content sg (negb v) line add = Ok o /\ r_options r = o_options o /\
+            forall k, times_named k (r_warnings r) = times_named k (o_warnings o).
+Proof.
+  unfold parse_directive_text, options_phase. intros H Hh. rewrite Hh in H.
+  apply bind_ok in H as [[[[[w hob] opts] cl] off] [H1 H]].
+  apply bind_ok in H1 as [o [Ho H1]]. inv H1.
+  apply bind_ok in H as [[[[w' body] off'] args] [H2 H]].
+  destruct (strip_blank_line body off') as [b ofs]. inv H. cbn [r_options r_warnings].
+  exists o. split; [exact Ho|]. split; [reflexivity|]. intro k.
+  assert (Hw : times_named k w' = times_named k (o_warnings o)).
+  { unfold first_line_phase in H2. destruct (no_arguments sg).
+    - destruct (nonempty (strip fl)); inv H2; [|reflexivity].
+      destruct (o_has_options o && existsb nonempty (o_content o)); [|reflexivity].
+      rewrite times_named_app. unfold times_named at 2. cbn. lia.
+    - apply bind_ok in H2 as [a [_ H2]]. inv H2. reflexivity. }
+  destruct (nonempty b && negb (has_content sg)); [|exact Hw].
+  rewrite times_named_app, Hw. unfold times_named at 2. cbn. lia.
+Qed.
+
+Theorem option_validation sg fl content line add r items hc :
+  has_option_spec sg = true -> is_test sg = false ->
+  block_items tokenize content line items hc ->
+  pdt sg fl content line true add = Ok r ->
+  let merged := merged_options items add in
+  r_options r = kept_of sg merged /\
+  (forall k v, In (k, v) merged ->
+     times_named k (r_warnings r) = match judge sg k v with Kept _ => O | _ => 1%nat end) /\
+  (forall k, ~ In k (map fst merged) -> times_named k (r_warnings r) = O).
+Proof.
+  cbn zeta. intros Hh Ht Hb H.
+  destruct (pdt_options _ _ _ _ _ _ _ H Hh) as [o [Ho [A B]]]. cbn [negb] in Ho.
+  destruct (pdo_validation tokenize yaml_load _ _ _ _ _ _ _ Ht Hb Ho) as [X [Y Z]].
+  split; [congruence|]. split.
+  - intros k v0 Hin. rewrite B. apply Y. exact Hin.
+  - intros k Hk. rewrite B. apply Z. exact Hk.
+Qed.
+
+End ValidationText.
+
+(* ================= the two option styles ================= *)
+
+(* a line "key: value" as it is written in the dash style: no separator, no indentation, not a delimiter *)
+Definition kv_line (l : str) : Prop :=
+  nosep l /\ is_dash_line l = false /\ exists c t, l = c :: t /\ is_space c = false.
+
+Definition erase_line (w : pwarn) : pwarn :=
+  match w with
+  | W_yaml_bad _ => W_yaml_bad None | W_yaml_notdict _ => W_yaml_notdict None
+  | W_tokenize _ => W_tokenize None | W_comments _ => W_comments None
+  | W_invalid n _ => W_invalid n None | W_unknown ns _ => W_unknown ns None
+  | W_split => W_split | W_has_content => W_has_content
+  end.
+
+Lemma colon_first_line s l0 rest :
+  splitlines s = l0 :: rest -> is_colon_line l0 = true -> startswith (lstrip s) colon = true.
+Proof.
+  intros El Ecl. destruct (splitlines_head s l0 rest El) as [r [Hc _]].
+  unfold is_colon_line in Ecl.
+  assert (Hne : lstrip l0 <> []) by (destruct (lstrip l0); discriminate).
+  rewrite Hc, (lstrip_app_nonempty l0 r Hne). apply startswith_app. exact Ecl.
+Qed.
+
+Lemma pop_colon_kvs kvs B :
+  is_colon_line (hd_line B) = false ->
+  pop_colon_lines (map (fun l => c_colon :: l) kvs ++ B) = (kvs, B).
+Proof.
+  intro HB. induction kvs as [|l kvs IH]; cbn [map app].
+  - destruct B as [|b B]; [reflexivity|]. cbn [pop_colon_lines hd_line] in *. rewrite HB. reflexivity.
+  - cbn [pop_colon_lines]. unfold is_colon_line at 1. rewrite (lstrip_nonspace _ _ colon_not_space).
+    cbn [colon startswith]. rewrite N.eqb_refl. cbn [andb negb]. rewrite startswith_nil_r. cbn [negb].
+    rewrite IH. reflexivity.
+Qed.
+
+Lemma search_dash_kvs kvs d1 B :
+  Forall kv_line kvs -> is_dash_line d1 = true ->
+  search_dash (kvs ++ d1 :: B) = (kvs, Some (d1 :: B)).
+Proof.
+  intros H Hd. induction H as [|l kvs [_ [Hl _]] _ IH]; cbn [app search_dash].
+  - rewrite Hd. reflexivity.
+  - rewrite Hl, IH. reflexivity.
+Qed.
+
+(* dedent leaves a block of unindented lines alone *)
+Lemma kv_line_no_nl l : kv_line l -> no_nl l.
+Proof. intros [H _]. apply nosep_no_nl. exact H. Qed.
+
+Lemma split_nl_text_before kvs : Forall kv_line kvs -> split_nl (text_before kvs) = kvs ++ [[]].
+Proof.
+  unfold text_before. induction 1 as [|l kvs Hl _ IH]; [reflexivity|].
+  cbn [map concat]. rewrite <- app_assoc. cbn [nl app].
+  rewrite (split_nl_line_app l _ (kv_line_no_nl l Hl)). rewrite IH. reflexivity.
+Qed.
+
+Lemma kv_line_blank_st l : kv_line l -> blank_st_line l = l.
+Proof.
+  intros [_ [_ [c [t [-> Hc]]]]]. unfold blank_st_line. cbn [forallb].
+  destruct (is_st c) eqn:E; [|reflexivity]. apply st_is_space in E. congruence.
+Qed.
+
+Lemma kv_line_indent l : kv_line l -> indent_of l = Some [].
+Proof.
+  intros [_ [_ [c [t [-> Hc]]]]]. unfold indent_of. cbn [drop_while take_while].
+  destruct (is_st c) eqn:E; [apply st_is_space in E; congruence | reflexivity].
+Qed.
+
+Lemma join_nl_snoc_empty kvs : kvs <> [] -> join_nl (kvs ++ [[]]) = text_before kvs.
+Proof.
+  unfold join_nl, text_before. induction kvs as [|l kvs IH]; intro H; [congruence|].
+  destruct kvs as [|l2 kvs].
+  - cbn. rewrite app_nil_r. reflexivity.
+  - cbn [app join map concat] in *. rewrite <- app_assoc. f_equal. f_equal. apply IH. discriminate.
+Qed.
+
+Lemma margin_all_empty (l : list str) : Forall (fun i => i = []) l -> forall m,
+  (m = None \/ m = Some []) -> l <> [] \/ m = Some [] -> fold_left margin_step l m = Some [].
+Proof.
+  induction 1 as [|i l Hi _ IH]; intros m Hm Hne.
+  - destruct Hne as [Hne|Hne]; [exfalso; apply Hne; reflexivity | exact Hne].
+  - subst i. cbn [fold_left]. apply IH.
+    + right. destruct Hm as [-> | ->]; reflexivity.
+    + right. destruct Hm as [-> | ->]; reflexivity.
+Qed.
+
+Lemma dedent_kvs kvs : kvs <> [] -> Forall kv_line kvs -> dedent (text_before kvs) = text_before kvs.
+Proof.
+  intros Hne H. unfold dedent. rewrite (split_nl_text_before kvs H).
+  assert (Hb : map blank_st_line (kvs ++ [[]]) = kvs ++ [[]]).
+  { rewrite map_app. cbn [map]. f_equal.
+    clear Hne. induction H as [|l kvs Hl _ IH]; [reflexivity|]. cbn [map]. rewrite (kv_line_blank_st l Hl), IH. reflexivity. }
+  rewrite Hb.
+  assert (Hi : filter_some (map indent_of (kvs ++ [[]])) = map (fun _ => []) kvs).
+  { clear Hne Hb. induction H as [|l kvs Hl _ IH]; [reflexivity|].
+    cbn [app map]. rewrite (kv_line_indent l Hl). cbn [filter_some]. rewrite IH. reflexivity. }
+  rewrite Hi.
+  rewrite (margin_all_empty (map (fun _ => []) kvs)).
+  - apply join_nl_snoc_empty. exact Hne.
+  - clear. induction kvs; constructor; auto.
+  - left. reflexivity.
+  - left. destruct kvs; [congruence | discriminate].
+Qed.
+
+Lemma text_before_join kvs : kvs <> [] -> text_before kvs = join_nl kvs ++ nl.
+Proof.
+  unfold text_before, join_nl. induction kvs as [|l kvs IH]; intro H; [congruence|].
+  destruct kvs as [|l2 kvs].
+  - cbn. rewrite app_nil_r. reflexivity.
+  - cbn [map concat join] in *. rewrite IH by discriminate. rewrite <- !app_assoc. reflexivity.
+Qed.
+
+(* the extraction step for the two contents *)
+Lemma split_options_colon c1 kvs B line :
+  kvs <> [] -> splitlines c1 = map (fun l => c_colon :: l) kvs ++ B ->
+  is_colon_line (hd_line B) = false ->
+  split_options c1 line = (Some (join_nl kvs), B, line).
+Proof.
+  intros Hne Hl HB. unfold split_options.
+  rewrite (startswith_hd_line dashes c1 dashes_nosep), Hl.
+  destruct kvs as [|l kvs]; [congruence|]. cbn [map app hd_line].
+  replace (startswith (c_colon :: l) dashes) with false by reflexivity.
+  rewrite (colon_first_line c1 (c_colon :: l) (map (fun l => c_colon :: l) kvs ++ B)).
+  - change ((c_colon :: l) :: map (fun l0 => c_colon :: l0) kvs ++ B)
+      with (map (fun l0 => c_colon :: l0) (l :: kvs) ++ B).
+    rewrite (pop_colon_kvs (l :: kvs) B HB). reflexivity.
+  - exact Hl.
+  - unfold is_colon_line. rewrite (lstrip_nonspace _ _ colon_not_space). cbn [colon startswith].
+    rewrite N.eqb_refl, startswith_nil_r. reflexivity.
+Qed.
+
+Lemma split_options_dash c2 d0 d1 kvs B line :
+  kvs <> [] -> Forall kv_line kvs -> splitlines c2 = d0 :: kvs ++ d1 :: B ->
+  is_dash_line d0 = true -> is_dash_line d1 = true ->
+  split_options c2 line = (Some (join_nl kvs ++ nl), B, option_map S line).
+Proof.
+  intros Hne Hk Hl H0 H1. unfold split_options.
+  rewrite (startswith_hd_line dashes c2 dashes_nosep), Hl. cbn [hd_line tl].
+  fold (is_dash_line d0). rewrite H0. rewrite (search_dash_kvs kvs d1 B Hk H1).
+  rewrite (dedent_kvs kvs Hne Hk).
+  rewrite count_nl_text_before.
+  - rewrite (proj1 (skipn_app_cons kvs d1 B)). rewrite (text_before_join kvs Hne). reflexivity.
+  - clear -Hk. induction Hk as [|l kvs [Hl _] _ IH]; constructor; auto.
+Qed.
+
+Definition res_rel {A} (R : A -> A -> Prop) (a b : res A) : Prop :=
+  match a, b with Ok x, Ok y => R x y | Raise e1, Raise e2 => e1 = e2 | _, _ => False end.
+
+Lemma validate_loop_lines sg l1 l2 opts :
+  res_rel (fun a b => fst (fst a) = fst (fst b) /\
+                      map erase_line (snd (fst a)) = map erase_line (snd (fst b)) /\ snd a = snd b)
+          (validate_loop sg l1 opts) (validate_loop sg l2 opts).
+Proof.
+  induction opts as [|[k v] opts IH]; [cbn; auto|].
+  rewrite !validate_loop_cons.
+  destruct (validate_loop sg l1 opts) as [[[no1 ve1] un1]|e1];
+    destruct (validate_loop sg l2 opts) as [[[no2 ve2] un2]|e2]; cbn [res_rel fst snd] in IH;
+    try contradiction.
+  - destruct IH as [A [B C]]. subst.
+    destruct (judge sg k v); cbn [bind res_rel fst snd map erase_line]; repeat split; congruence.
+  - subst. destruct (judge sg k v); cbn [bind res_rel]; reflexivity.
+Qed.
+
+Definition opts_rel (o1 o2 : dopts) : Prop :=
+  o_content o1 = o_content o2 /\ o_options o1 = o_options o2 /\
+  map erase_line (o_warnings o1) = map erase_line (o_warnings o2) /\ o_has_options o1 = o_has_options o2.
+
+Definition result_rel (sg : dsig) (fl : str) (d : Z) (r1 r2 : dresult) : Prop :=
+  r_arguments r1 = r_arguments r2 /\ r_options r1 = r_options r2 /\ r_body r1 = r_body r2 /\
+  map erase_line (r_warnings r1) = map erase_line (r_warnings r2) /\
+  (first_line_is_body sg fl = false -> r_body_offset r2 = (r_body_offset r1 + d)%Z).
+
+Section Styles.
+Variable tokenize : str -> res (list (str * str) * bool).
+Variable yaml_load : str -> yres.
+Notation pdo := (parse_directive_options tokenize yaml_load).
+Notation pdt := (parse_directive_text tokenize yaml_load).
+
+Lemma pdo_rel sg ay add c1 c2 line b1 b2 cl l1 l2 :
+  split_options c1 line = (Some b1, cl, l1) -> split_options c2 line = (Some b2, cl, l2) ->
+  tokenize b1 = tokenize b2 -> yaml_load b1 = yaml_load b2 ->
+  res_rel opts_rel (pdo c1 sg ay line add) (pdo c2 sg ay line add).
+Proof.
+  intros S1 S2 Ht Hy. unfold parse_directive_options. rewrite S1, S2, Ht, Hy.
+  destruct ay.
+  - destruct (yaml_load b2); cbn [res_rel]; unfold opts_rel; cbn; auto.
+  - destruct (tokenize b2) as [[items hc]|e].
+    + destruct (is_test sg); [cbn [res_rel]; unfold opts_rel; cbn; auto|].
+      pose proof (validate_loop_lines sg l1 l2
+        match add with Some (a :: l) => dict_update (dict_of (a :: l)) (dict_of items) | _ => dict_of items end) as HV.
+      destruct (validate_loop sg l1 _) as [[[no1 ve1] un1]|e1];
+        destruct (validate_loop sg l2 _) as [[[no2 ve2] un2]|e2]; cbn [res_rel fst snd] in HV; try contradiction.
+      * destruct HV as [A [B C]]. subst. cbn [bind res_rel]. unfold opts_rel. cbn [o_content o_options o_warnings o_has_options].
+        repeat split.
+        destruct (nonempty un2); destruct hc; rewrite ?map_app; cbn [map erase_line app]; rewrite ?B; reflexivity.
+      * cbn [bind res_rel]. exact HV.
+    + destruct e; cbn [res_rel]; unfold opts_rel; cbn; auto.
+Qed.
+
+(* everything after the option phase *)
+Definition pdt_tail (sg : dsig) (fl : str) (st : list pwarn * bool * list (str * str) * list str * Z) : res dresult :=
+  let '(parse_warnings, has_options_block, options, body_lines, content_offset) := st in
+  do st2 <- first_line_phase sg fl parse_warnings has_options_block body_lines content_offset;
+  let '(parse_warnings, body_lines, content_offset, arguments) := st2 in
+  let '(body_lines, content_offset) := strip_blank_line body_lines content_offset in
+  let parse_warnings :=
+    if nonempty body_lines && negb (has_content sg) then parse_warnings ++ [W_has_content]
+    else parse_warnings in
+  Ok {| r_arguments := arguments; r_options := options; r_body := body_lines;
+        r_body_offset := content_offset; r_warnings := parse_warnings |}.
+
+Lemma pdt_is_tail sg fl content line v add :
+  pdt sg fl content line v add =
+  bind (options_phase tokenize yaml_load sg content line v add) (pdt_tail sg fl).
+Proof.
+  unfold parse_directive_text, pdt_tail.
+  destruct (options_phase tokenize yaml_load sg content line v add) as [[[[[w hob] opts] cl] off]|e]; reflexivity.
+Qed.
+
+Lemma pdt_tail_rel sg fl w1 w2 hob opts cl off d :
+  map erase_line w1 = map erase_line w2 ->
+  res_rel (result_rel sg fl d) (pdt_tail sg fl (w1, hob, opts, cl, off))
+                               (pdt_tail sg fl (w2, hob, opts, cl, (off + d)%Z)).
+Proof.
+  intro Hw. unfold result_rel. unfold pdt_tail, first_line_phase, first_line_is_body.
+  destruct (no_arguments sg); cbn [andb].
+  - destruct (nonempty (strip fl)) eqn:Es.
+    + cbn [bind]. unfold strip_blank_line, is_blank. rewrite Es. cbn [negb].
+      cbn [nonempty andb res_rel r_arguments r_options r_body r_warnings r_body_offset].
+      repeat split; try (intro X; discriminate X).
+      destruct (hob && existsb nonempty cl); destruct (negb (has_content sg));
+        rewrite ?map_app, ?Hw; reflexivity.
+    + cbn [bind]. unfold strip_blank_line.
+      destruct cl as [|l rest]; [|destruct (is_blank l)];
+        cbn [nonempty andb res_rel r_arguments r_options r_body r_warnings r_body_offset];
+        repeat split; try lia;
+        try (destruct (nonempty rest); cbn [andb]); destruct (negb (has_content sg));
+        rewrite ?map_app, ?Hw; reflexivity.
+  - destruct (parse_directive_arguments sg fl) as [args|e]; [|reflexivity].
+    cbn [bind]. unfold strip_blank_line.
+    destruct cl as [|l rest]; [|destruct (is_blank l)];
+      cbn [nonempty andb res_rel r_arguments r_options r_body r_warnings r_body_offset];
+      repeat split; try lia;
+      try (destruct (nonempty rest); cbn [andb]); destruct (negb (has_content sg));
+      rewrite ?map_app, ?Hw; reflexivity.
+Qed.
+
+Lemma pdt_tail_rel' sg fl w1 w2 hob opts cl off off2 d :
+  map erase_line w1 = map erase_line w2 -> off2 = (off + d)%Z ->
+  res_rel (result_rel sg fl d) (pdt_tail sg fl (w1, hob, opts, cl, off))
+                               (pdt_tail sg fl (w2, hob, opts, cl, off2)).
+Proof. intros Hw ->. apply pdt_tail_rel. exact Hw. Qed.
+
+Theorem styles_interchangeable sg fl c1 c2 d0 d1 kvs B line v add :
+  has_option_spec sg = true ->
+  kvs <> [] -> Forall kv_line kvs ->
+  splitlines c1 = map (fun l => c_colon :: l) kvs ++ B -> is_colon_line (hd_line B) = false ->
+  splitlines c2 = d0 :: kvs ++ d1 :: B -> is_dash_line d0 = true -> is_dash_line d1 = true ->
+  tokenize (join_nl kvs ++ nl) = tokenize (join_nl kvs) ->
+  yaml_load (join_nl kvs ++ nl) = yaml_load (join_nl kvs) ->
+  res_rel (result_rel sg fl 2) (pdt sg fl c1 line v add) (pdt sg fl c2 line v add).
+Proof.
+  intros Hh Hne Hk L1 HB L2 H0 H1 Ht Hy.
+  rewrite !pdt_is_tail. unfold options_phase. rewrite Hh.
+  pose proof (split_options_colon c1 kvs B line Hne L1 HB) as S1.
+  pose proof (split_options_dash c2 d0 d1 kvs B line Hne Hk L2 H0 H1) as S2.
+  pose proof (pdo_rel sg (negb v) add c1 c2 line _ _ _ _ _ S1 S2 (eq_sym Ht) (eq_sym Hy)) as HR.
+  destruct (parse_directive_options tokenize yaml_load c1 sg (negb v) line add) as [o1|e1] eqn:E1;
+    destruct (parse_directive_options tokenize yaml_load c2 sg (negb v) line add) as [o2|e2] eqn:E2;
+    cbn [res_rel] in HR; try contradiction; [|cbn; exact HR].
+  destruct HR as [A [B' [C D]]]. cbn [bind].
+  pose proof (pdo_content tokenize yaml_load _ _ _ _ _ _ E1) as C1. rewrite S1 in C1. cbn [fst snd] in C1.
+  pose proof (pdo_content tokenize yaml_load _ _ _ _ _ _ E2) as C2. rewrite S2 in C2. cbn [fst snd] in C2.
+  rewrite <- B', <- D, C1, C2, L1, L2.
+  apply pdt_tail_rel'; [exact C|].
+  cbn [length]. rewrite !app_length, map_length. cbn [length]. unfold str in *. lia.
+Qed.
+
+End Styles.
+
+(* ================= the code before fix 601d16e ================= *)
+
+(* ":class: x\nbody\n\n" : re-joining and re-splitting lost the trailing blank line, the offset was 2 *)
+Definition old_witness : str :=
+  [58; 99; 108; 97; 115; 115; 58; 32; 120; 10; 98; 111; 100; 121; 10; 10].
+
+Lemma old_code_refuted :
+  exists content,
+    let '(body, off) := old_body_and_offset content in
+    body <> skipn (Z.to_nat off) (splitlines content).
+Proof. exists old_witness. vm_compute. discriminate. Qed.
